@@ -125,8 +125,10 @@ var c08Perms = [][]int{{}, {0}, {1}, {2}, {0, 1}, {1, 0}, {0, 2}, {2, 0}, {1, 2}
 
 var c08Params = registerSpace(&e1Space{
 	Prop: "C08", Name: "params",
-	N: func(th bool) int64 { return 8 * int64(len(c08Perms)) * 3 * 2 },
+	N: func(th bool) int64 { return 8 * int64(len(c08Perms)) * 3 * 2 * 4 },
 	Gen: func(i int64, th bool) *rj.Program {
+		collide := int(i % 4) // a variable named like a parameter is visible at the yield site: none / VarMap / local / global
+		i /= 4
 		defaults := int(i % 8)
 		i /= 8
 		perm := c08Perms[i%int64(len(c08Perms))]
@@ -151,6 +153,38 @@ var c08Params = registerSpace(&e1Space{
 			y.Ctx = rj.S("C")
 		}
 		body := []rj.Stmt{rj.T("["), y, rj.T("]")}
+		mk := c08Mk
+		switch collide {
+		case 1:
+			mk = func(log *[]string) rj.Inputs {
+				in := c08Mk(log)
+				in.Vars["b"] = "vm-b"
+				in.Vars["c"] = "vm-c"
+				return in
+			}
+		case 2:
+			body = append([]rj.Stmt{rj.Let("a", rj.S("local-a")), rj.Let("c", rj.S("local-c"))}, body...)
+			body = append(body, rj.T("|a="), rj.E(rj.V("a")), rj.T(",c="), rj.E(rj.V("c")))
+		case 3:
+			mk = func(log *[]string) rj.Inputs {
+				in := c08Mk(log)
+				in.Globals = map[string]interface{}{"a": "gl-a", "b": "gl-b"}
+				return in
+			}
+		}
+		if collide != 0 {
+			var p *rj.Program
+			switch where {
+			case 0:
+				p = &rj.Program{Files: []*rj.File{{Name: "/t.jet", Imports: []string{"/lib.jet"}, Body: body}, {Name: "/lib.jet", Body: []rj.Stmt{blk}}}, Entry: "/t.jet"}
+			case 1:
+				p = &rj.Program{Files: []*rj.File{{Name: "/t.jet", Extends: "/base.jet", Body: []rj.Stmt{blk}}, {Name: "/base.jet", Body: body}}, Entry: "/t.jet"}
+			default:
+				p = &rj.Program{Files: []*rj.File{{Name: "/t.jet", Body: append(body, rj.T("(:"), blk, rj.T(":)"))}}, Entry: "/t.jet"}
+			}
+			p.Mk = mk
+			return p
+		}
 		switch where {
 		case 0:
 			return &rj.Program{Files: []*rj.File{{Name: "/t.jet", Imports: []string{"/lib.jet"}, Body: body}, {Name: "/lib.jet", Body: []rj.Stmt{blk}}}, Entry: "/t.jet", Mk: c08Mk}
